@@ -8,6 +8,18 @@ Streams
            order equal to the in-memory ones (no cast, no swap) and with a cast.
   history  rt where the SAME image object was saved before with other on-disk dtypes (rescaled / refused / plain)
            to other destinations; the lossless save under test must still store exactly the cast bytes.
+  dtypearg rt where the on-disk dtype is handed over as the `dtype=` argument of to_filename / to_file_map / to_stream /
+           to_bytes / nib.save (spelled as dtype in either byte order, name string, scalar type) instead of being set in
+           the header: class x header byte order x the way the header got it (endianness=, as_byteswapped, loaded) x
+           spelling; the header dtype after the call is an observable too.
+  resave   the image is saved, LOADED in a child process working in the file's directory (mmap True/False/'c'/'r';
+           nib.load / from_filename / open file objects; path spelled absolute, relative, ./x, sub/../x, pathlib,
+           through a symlink, with a double slash) and saved over its own file (same or another spelling, own file_map,
+           get_filename(), nib.save; same object, re-wrapped dataobj, re-wrapped memmap array); the final file is tested.
+  long     LONG axes (> 2**16; (N,1,1), (1,N,1), (N,), (1,1,1,N), (N,2), (2,N); N incl. 131072, 163842, 196608,
+           200000 and random ones) for some classes / dtypes / routes; values from a compact LCG spec.
+  hshape   set_data_shape / get_data_shape of the Analyze-family headers against the model (limits of `dim`, the two
+           FreeSurfer conventions of NIfTI-1), incl. the refusals.
   zero     rt on zero-size arrays (repaired by `fix: array_from_file returns an empty array ...`).
   refuse   rt with a data offset below the single-file minimum: both sides must refuse.
   sn       ArrayWriter / SlopeArrayWriter.scaling_needed against the model, all dtype pairs.
@@ -57,6 +69,10 @@ THEOREMS = [
     'Nb.C01.mgh_resave_in_place',
     'Nb.C01.float_out_never_scaled',
     'Nb.C01.same_dtype_exact',
+    'Nb.C01.shape_roundtrip',
+    'Nb.C01.nifti1_ico7_alias_counterexample',
+    'Nb.C01.shape_rules_generated',
+    'Nb.C01.mgh_constants_generated',
 ]
 ASSUMPTIONS = [
     'hand-written Lean model (Model/C01.lean) of the scaling-free path: ArrayWriter/SlopeArrayWriter.scaling_needed, '
@@ -68,7 +84,11 @@ ASSUMPTIONS = [
     'compression codecs gzip/bz2/zstd: contract decompress(compress(b)) = b (theorem roundtrip_through_codec takes it '
     'as a hypothesis); the harness decompresses with the stdlib/pyzstd modules directly, not through nibabel',
     'Char.toLower (ASCII) stands for str.lower() on file-name extensions (names generated are ASCII)',
-    'header bytes are opaque to the model (dummy bytes of the generated length); header field round-trip is C10',
+    'header bytes are opaque to the model (dummy bytes of the generated length); header field round-trip is C10 - except '
+    'the shape fields (dim, glmin) and the (byte order, data-type code) pair, which Model/C01 now models '
+    '(setShape/getShape, Hdr/saveDType) and the hshape / dtypearg streams tie to the code',
+    'resave: the operating system contract "open(name, \'wb\') truncates the file a memory map refers to" is modelled as '
+    'the empty file; path resolution (relative names, symlinks) is the OS\'s, exercised by the resave stream only',
 ]
 RULE = ('rt: every valid (class x route x compression) cell x random (endianness, input dtype, on-disk dtype needing no '
         'scaling, rank 1-7 shape with length-1 axes, memory layout C/F/strided/negative/byte-swapped/unaligned/'
@@ -76,6 +96,9 @@ RULE = ('rt: every valid (class x route x compression) cell x random (endianness
         'a case is non-trivial when the array has >= 2 elements; distinct by (class, route, compression, endianness, '
         'in dtype, out dtype, shape, layout, offset, values, history). perm: all axis permutations for rank 2-4 x C/F base x '
         'class x endianness with memory byte order == disk byte order. history: class x prior dtype x tested dtype. '
+        'dtypearg: class x {<,>} x header source x dtype= spelling x route. resave: class x path spelling x mmap mode x '
+        'random (loader, save spelling, re-wrapping, compression, > 1 page of data). long: fixed list of long shapes + '
+        'random lengths in (2**16, 1.4e5) per seed. hshape: limits of dim/glmin, both FreeSurfer conventions, ranks 1-8. '
         'Concurrent access through a shared handle is C14. sn: all dtype pairs x value classes x {base, slope}. '
         'codec: every generated table name x roots + random names. mghshape: all shapes of rank 0-5 over {1,2,3}.')
 
@@ -85,6 +108,14 @@ PENDING_FINDINGS = [{
             '(HeaderDataError "Data should be shape (x, y, z)") / would reload as (x,y,z)',
     'input': {'op': 'rt', 'cls': 'MGHImage', 'endian': '>', 'out': 'u1', 'offset': None, 'shape': [1, 1, 1, 1],
               'in': 'u1', 'layout': 'C', 'vals': [7], 'route': 'bytes', 'comp': '', 'stream': 'rt'},
+}, {
+    'property': 'C01', 'signature': 'nifti1:ico7-shape-alias', 'status': 'open',
+    'what': 'NIfTI-1 (single and pair): an image whose shape begins (27307, 1, 6) is loaded back with shape '
+            '(163842, 1, 1, ...): Nifti1Header.get_data_shape applies the FreeSurfer ico7 convention to every header '
+            'whose dim[1:4] is (27307, 1, 6) (same voxels, different shape)',
+    'input': {'op': 'rt', 'cls': 'Nifti1Image', 'endian': '<', 'out': 'u1', 'offset': None, 'shape': [27307, 1, 6],
+              'in': 'u1', 'layout': 'C', 'vals': {'lcg': [77, 5, 256, 0]}, 'route': 'bytes', 'comp': '',
+              'stream': 'long'},
 }]
 
 logging.getLogger('nibabel').setLevel(logging.CRITICAL)
@@ -184,6 +215,24 @@ def class_info():
 
 # ------------------------------------------------------------------ regeneration (Leg T)
 
+def shape_rules():
+    """(class, rule, max of the `dim` integer type, max of the `glmin` integer type) off the working tree"""
+    rules = {'AnalyzeHeader': 'analyze', 'Nifti1Header': 'nifti1', 'Nifti2Header': 'nifti2'}
+    out = []
+    for cn in CLASS_NAMES:
+        hc = klass(cn).header_class
+        if cn == 'MGHImage':
+            continue
+        owner_set = hc.set_data_shape.__qualname__.split('.')[0]
+        owner_get = hc.get_data_shape.__qualname__.split('.')[0]
+        rule = rules.get(owner_set, 'unknown:' + owner_set) if owner_set == owner_get else f'mixed:{owner_set}/{owner_get}'
+        h = hc()
+        dm = int(np.iinfo(h['dim'].dtype).max)
+        gm = int(np.iinfo(h['glmin'].dtype).max) if 'glmin' in h.keys() else 0
+        out.append((cn, rule, dm, gm))
+    return out
+
+
 def _lean_str(s):
     return '"' + s.replace('\\', '\\\\').replace('"', '\\"') + '"'
 
@@ -221,11 +270,15 @@ def regen():
            'def dataFileNames : List (String × String × String × String) :=',
            '  [' + ',\n   '.join(f'({_lean_str(a)}, {_lean_str(e)}, {_lean_str(s)}, {_lean_str(c)})'
                                  for a, e, s, c in names) + ']', '',
+           '/-- shape fields of the Analyze-family header classes: (class, which get/set_data_shape the header class',
+           '    has, np.iinfo(hdr["dim"].dtype).max, np.iinfo(hdr["glmin"].dtype).max or 0 when there is no glmin) -/',
+           'def shapeRules : List (String × String × Nat × Nat) :=',
+           '  [' + ',\n   '.join(f'({_lean_str(cn)}, {_lean_str(r)}, {dm}, {gm})' for cn, r, dm, gm in shape_rules()) + ']', '',
            'end Nb.C01.Gen', '']
     common.write_if_changed(os.path.join(common.LEAN, 'NibabelModel', 'Generated', 'C01FileTypes.lean'),
                             '\n'.join(src))
     return ['Generated.C01FileTypes.compressExtMap', 'Generated.C01FileTypes.classes',
-            'Generated.C01FileTypes.dataFileNames']
+            'Generated.C01FileTypes.dataFileNames', 'Generated.C01FileTypes.shapeRules']
 
 
 # ------------------------------------------------------------------ arrays
@@ -489,6 +542,11 @@ def mk_rd(cls, endian, out, shape, flen):
                 ('rd', cls, out, tuple(shape), flen), 'rd')
 
 
+def mk_hshape(cls, shape):
+    return Case(f'C01 hshape {cls} {fmt_shape(shape)}', {'op': 'hshape', 'cls': cls, 'shape': list(shape)},
+                ('hshape', cls, tuple(shape)), 'hshape')
+
+
 def mk_mghshape(shape):
     return Case(f'C01 mghshape {fmt_shape(shape)}', {'op': 'mghshape', 'shape': list(shape)},
                 ('mghshape', tuple(shape)), 'mghshape')
@@ -506,6 +564,8 @@ def case_from_data(d):
         return mk_codec(d['name'])
     if op == 'mghshape':
         return mk_mghshape(d['shape'])
+    if op == 'hshape':
+        return mk_hshape(d['cls'], d['shape'])
     if op == 'opener':
         return mk_opener(d['name'])
     if op == 'rd':
@@ -875,6 +935,23 @@ def impl(case):
             return 'ERR:OSError'
         except Exception as e:
             return errname(e)
+    if op == 'hshape':
+        from nibabel.spatialimages import HeaderDataError
+        h = klass(d['cls']).header_class()
+        try:
+            h.set_data_shape(tuple(d['shape']))
+        except HeaderDataError:
+            return 'ERR:HeaderDataError'
+        except Exception as e:
+            return errname(e)
+        nd = int(h['dim'][0])
+        dims = [int(x) for x in h['dim'][1:nd + 1]]
+        glmin = int(h['glmin']) if 'glmin' in h.keys() else 0
+        try:
+            gs = str([int(x) for x in h.get_data_shape()])
+        except Exception as e:
+            gs = errname(e)
+        return f'dims={dims} glmin={glmin} shape={gs}'.replace(', ', ',')
     if op == 'mghshape':
         from nibabel import MGHImage
         try:
@@ -956,6 +1033,13 @@ def oracle(case, out):
                 return f'scaling_needed() is False for {d["in"]}->{d["out"]} but value {bad[0]} is outside the on-disk range'
         return None
     if op == 'mghshape':
+        return None
+    if op == 'hshape':
+        if out.startswith('ERR'):
+            return None
+        got = out.split('shape=')[1]
+        if got != str(list(d['shape'])).replace(', ', ',') and not _ico7_alias(d):
+            return f'{d["cls"]} header: set_data_shape({tuple(d["shape"])}) then get_data_shape() gives {got}'
         return None
     if op == 'opener':
         ext = os.path.splitext(d['name'])[1].lower()
@@ -1057,10 +1141,17 @@ def oracle(case, out):
     return None
 
 
+def _ico7_alias(d):
+    return d['cls'] in ('Nifti1Image', 'Nifti1Pair') and list(d['shape'][:3]) == [27307, 1, 6]
+
+
 def signature(case, what):
     d = case.data
     if d['op'] != 'rt':
         return 'c01:' + d['op']
+    if _ico7_alias(d) and 'shape changed' in what and \
+            f'shape {tuple([163842, 1, 1] + list(d["shape"][3:]))}' in what:
+        return 'nifti1:ico7-shape-alias'
     if (d['cls'] == 'MGHImage' and len(d['shape']) == 4 and d['shape'][-1] == 1 and
             (('raised ERR:HeaderDataError' in what and 'Data should be shape' in what) or
              ('shape changed' in what and f'loaded dataobj shape {tuple(d["shape"][:3])}' in what))):
@@ -1077,6 +1168,8 @@ def signature(case, what):
 
 
 def _known_class(d):
+    if d['op'] == 'rt' and _ico7_alias(d):
+        return 'ico7'
     return d['op'] == 'rt' and d['cls'] == 'MGHImage' and len(d['shape']) == 4 and d['shape'][-1] == 1
 
 
@@ -1515,6 +1608,12 @@ def long_stream(rng, tier):
                     if dt in info[cls]['dtypes']:
                         todo.append((cls, (n, 1, 1), dt, dt, '>' if cls == 'MGHImage' else rng.choice('<>'),
                                      rng.choice(['file_map', 'filename']), '', 'C'))
+    # the ico7 alias of NIfTI-1 (open finding nifti1:ico7-shape-alias) and its neighbours
+    todo.append((rng.choice(['Nifti1Image', 'Nifti1Pair']), (27307, 1, 6), 'u1', 'u1', rng.choice('<>'), 'file_map', '', 'C'))
+    if tier != 'quick':
+        todo.append(('Nifti2Image', (27307, 1, 6), 'u1', 'u1', '<', 'bytes', '', 'C'))
+        todo.append(('Nifti1Image', (27307, 1, 6, 2), 'u1', 'u1', '>', 'bytes', '', 'F'))
+        todo.append(('Nifti1Image', (27307, 6, 1), 'u1', 'u1', '>', 'bytes', '', 'C'))
     for cls, shape, in_name, o, endian, route, comp, layout in todo:
         if o not in info[cls]['dtypes']:
             continue
@@ -1659,6 +1758,22 @@ def cases(rng, tier):
             if rng.random() < 0.15:
                 flen = need + rng.randint(1, 9)
             out.append(mk_rd(cls, rng.choice('<>'), o, shape, flen))
+    # ---- shape fields of the Analyze-family headers: limits of `dim`, the two FreeSurfer conventions of NIfTI-1
+    for cls in CLASS_NAMES:
+        if cls == 'MGHImage':
+            continue
+        shapes = [(27307, 1, 6), (27307, 1, 6, 2), (163842, 1, 1), (163842, 1, 1, 3), (163842, 1), (163842,), (1, 163842, 1),
+                  (163842, 1, 2), (163842, 2, 1), (32767, 1, 1), (32768, 1, 1), (32768, 1, 1, 32767), (32768, 1, 1, 32768),
+                  (32768, 1), (32768,), (1, 32768, 1), (1, 1, 32768), (2 ** 31 - 1, 1, 1), (2 ** 31, 1, 1), (2 ** 63 - 1, 1, 1),
+                  (2 ** 63, 1, 1), (2 ** 63 - 1,), (2 ** 63,), (27307, 1), (27307, 1, 5), (0, 1, 1), (2, 0, 3), (1,) * 7,
+                  (1,) * 8, (2,) * 7, (32767,) * 7, (65536, 1, 1, 1, 1, 1, 1), (65536, 1, 1, 1, 1, 1, 1, 1)]
+        for _ in range({'quick': 30, 'thorough': 300, 'search': 30}[tier]):
+            rank = rng.randint(1, 8)
+            pool = [1, 1, 1, 2, 3, 6, 27307, 32767, 32768, 163842, 65536, rng.randint(0, 70000), 2 ** 31 - 1, 2 ** 31]
+            shapes.append(tuple(rng.choice(pool[:6] if rng.random() < 0.5 else pool) for _ in range(rank)))
+            shapes.append((rng.choice(pool),) + (1, 1) + tuple(rng.choice(pool[:6]) for _ in range(rng.randint(0, 4))))
+        for sh in shapes:
+            out.append(mk_hshape(cls, sh))
     # ---- MGH shape rules, exhaustive small
     for rank in range(0, 6):
         for shape in itertools.product([1, 2, 3], repeat=rank):
